@@ -237,6 +237,11 @@ pub fn observe_sparse(r: &mut RLN, d: usize, touched: &BTreeSet<usize>, it: &mut
         proofs.push(obs_proof(r, i, vals.get(&i).cloned(), it));
     }
     o["proofs"] = json!(proofs);
+    let mut mb = Vec::new();
+    o["meta"] = match r.get_metadata(&mut mb) {
+        Ok(()) => json!(mb),
+        Err(_) => json!("err"),
+    };
     o
 }
 
@@ -263,7 +268,7 @@ pub fn apply(r: &mut RLN, op: &Value) -> color_eyre::Result<()> {
     }
 }
 
-fn touched_by(op: &Value, next_before: usize, out: &mut BTreeSet<usize>, cap: usize) {
+pub fn touched_by(op: &Value, next_before: usize, out: &mut BTreeSet<usize>, cap: usize) {
     let mut add = |i: usize| {
         if i < cap {
             out.insert(i);
